@@ -1,49 +1,173 @@
+// Command rocheck decides the /verif properties of samber/ro by static analysis of /repo.
 package main
 
 import (
 	"flag"
 	"fmt"
 	"os"
+	"path/filepath"
+	"sort"
+	"strconv"
 	"strings"
 	"time"
 
+	"rocheck/internal/check"
 	"rocheck/internal/load"
 	"rocheck/internal/model"
+	"rocheck/internal/rules"
 )
 
-var corePatterns = []string{"github.com/samber/ro", "github.com/samber/ro/internal/..."}
-var pluginPatterns = []string{
-	"github.com/samber/ro/ee/plugins/prometheus",
-	"github.com/samber/ro/plugins/bytes", "github.com/samber/ro/plugins/strings", "github.com/samber/ro/plugins/strconv",
-	"github.com/samber/ro/plugins/regexp", "github.com/samber/ro/plugins/time", "github.com/samber/ro/plugins/template",
-	"github.com/samber/ro/plugins/encoding/base64", "github.com/samber/ro/plugins/encoding/json", "github.com/samber/ro/plugins/encoding/gob",
-	"github.com/samber/ro/plugins/encoding/csv", "github.com/samber/ro/plugins/sort", "github.com/samber/ro/plugins/stdio",
-	"github.com/samber/ro/plugins/ratelimit/native", "github.com/samber/ro/plugins/ratelimit/ulule",
-}
-
 func main() {
-	dump := flag.String("dump", "", "dump the model of SCs whose name contains this string ('all' for everything)")
+	prop := flag.String("prop", "", "property id (C01..C20)")
+	tier := flag.String("tier", "quick", "quick|thorough")
+	repo := flag.String("repo", "/repo", "repository root")
+	verif := flag.String("verif", "", "verif root (default: directory containing bin/)")
+	dump := flag.String("dump", "", "dump the model of SCs whose name contains this string ('all')")
+	explain := flag.String("explain", "", "print a report file")
+	noControls := flag.Bool("no-controls", false, "do not inject positive controls (debug)")
+	verbose := flag.Bool("v", false, "print every non-ok obligation")
 	flag.Parse()
-	t0 := time.Now()
-	prog, err := load.Load(load.Config{Patterns: append(append([]string{}, corePatterns...), pluginPatterns...)})
-	if err != nil {
-		fmt.Println("ERR", err)
+
+	if *explain != "" {
+		b, err := os.ReadFile(*explain)
+		if err != nil {
+			fmt.Println(err)
+			os.Exit(2)
+		}
+		os.Stdout.Write(b)
+		return
+	}
+	vroot := *verif
+	if vroot == "" {
+		exe, _ := os.Executable()
+		vroot = filepath.Dir(filepath.Dir(exe))
+	}
+	if env := os.Getenv("VERIF_TIER"); env != "" && *tier == "" {
+		*tier = env
+	}
+	seed := int64(0)
+	if s := os.Getenv("VERIF_SEED"); s != "" {
+		seed, _ = strconv.ParseInt(s, 10, 64)
+	}
+
+	if *dump != "" {
+		prog, err := load.Load(load.Config{Repo: *repo, Patterns: rules.AllPatterns()})
+		die(err)
+		m, err := model.Build(prog)
+		die(err)
+		for _, sc := range m.SCs {
+			if *dump == "all" || strings.Contains(sc.String(), *dump) {
+				dumpSC(m, sc)
+			}
+		}
+		return
+	}
+
+	p := rules.ByID(*prop)
+	if p == nil {
+		fmt.Printf("unknown property %q; known: %s\n", *prop, strings.Join(rules.IDs(), " "))
 		os.Exit(2)
+	}
+	t0 := time.Now()
+	overlay := map[string][]byte{}
+	if !*noControls {
+		for rel, src := range p.Controls {
+			overlay[filepath.Join(*repo, rel)] = []byte(src)
+		}
+	}
+	prog, err := load.Load(load.Config{Repo: *repo, Patterns: p.Patterns, Overlay: overlay})
+	if err != nil {
+		fail(p.ID, vroot, "load failed: "+err.Error())
 	}
 	m, err := model.Build(prog)
 	if err != nil {
-		fmt.Println("ERR", err)
-		os.Exit(2)
+		fail(p.ID, vroot, "model failed: "+err.Error())
 	}
-	fmt.Println(len(prog.ByPath), "packages", len(m.SCs), "SCs", time.Since(t0))
-	if *dump != "" {
-		for _, sc := range m.SCs {
-			if *dump != "all" && !strings.Contains(sc.String(), *dump) {
-				continue
-			}
-			dumpSC(m, sc)
+	known, err := check.LoadKnown(filepath.Join(vroot, "KNOWN_FINDINGS.txt"))
+	if err != nil {
+		fail(p.ID, vroot, err.Error())
+	}
+	out := check.Run(p, m, *tier, known)
+	if *tier == "thorough" && p.Thorough != nil {
+		p.Thorough(out, m, *repo, seed)
+	}
+	report, err := out.WriteReport(filepath.Join(vroot, "reports"))
+	die(err)
+	die(out.WriteEvidence(filepath.Join(vroot, "evidence", p.ID+".json"), seed, time.Since(t0)))
+
+	nOK := 0
+	for _, o := range out.Obs {
+		if o.Verdict == check.OK && !o.Control {
+			nOK++
 		}
 	}
+	fmt.Printf("%s tier=%s packages=%d SCs=%d obligations=%d ok=%d violations=%d known=%d undecided=%d wall=%.1fs\n",
+		p.ID, *tier, len(prog.Roots), len(m.SCs), len(out.Obs), nOK, len(out.Violations), len(out.KnownHit), len(out.Undecided), time.Since(t0).Seconds())
+	var rn []string
+	for _, r := range p.Rules {
+		rn = append(rn, fmt.Sprintf("%s(ctl=%d)", r.Name, out.ControlHits[r.Name]))
+	}
+	fmt.Println("rules:", strings.Join(rn, " "))
+	keys := make([]string, 0, len(out.Count))
+	for k := range out.Count {
+		keys = append(keys, k)
+	}
+	sort.Strings(keys)
+	for _, k := range keys {
+		fmt.Printf("  count %s=%d\n", k, out.Count[k])
+	}
+	for _, k := range out.KnownHit {
+		kn := ""
+		for _, e := range known {
+			if e.Key == k.Key && e.Property == p.ID {
+				kn = e.Text
+			}
+		}
+		fmt.Printf("KNOWN-FINDING: property=%s %s at %s — %s\n", p.ID, k.Key, k.Pos, kn)
+	}
+	for _, s := range out.Stale {
+		fmt.Printf("STALE: listed finding no longer observed: property=%s key=%s\n", s.Property, s.Key)
+	}
+	if *verbose || out.Failed() {
+		for _, o := range out.Violations {
+			fmt.Printf("  violation [%s] %s at %s: %s\n", o.Rule, o.Key, o.Pos, o.Msg)
+		}
+		for _, o := range out.Undecided {
+			fmt.Printf("  undecided [%s] %s at %s: %s\n", o.Rule, o.Key, o.Pos, o.Msg)
+		}
+		for _, b := range out.Broken {
+			fmt.Printf("  broken: %s\n", b)
+		}
+	}
+	if *verbose {
+		for _, o := range out.Obs {
+			if o.Verdict == check.Info && !o.Control {
+				fmt.Printf("  info [%s] %s at %s: %s\n", o.Rule, o.Key, o.Pos, o.Msg)
+			}
+		}
+	}
+	if out.Failed() {
+		fmt.Printf("VIOLATION property=%s replay=%s\n", p.ID, report)
+		os.Exit(1)
+	}
+}
+
+func die(err error) {
+	if err != nil {
+		fmt.Println("rocheck:", err)
+		os.Exit(2)
+	}
+}
+
+// fail reports a framework failure as a failing check (never a silent pass).
+func fail(id, vroot, msg string) {
+	dir := filepath.Join(vroot, "reports")
+	_ = os.MkdirAll(dir, 0o755)
+	path := filepath.Join(dir, id+".txt")
+	_ = os.WriteFile(path, []byte("BROKEN CHECK: "+msg+"\n"), 0o644)
+	fmt.Println("rocheck:", msg)
+	fmt.Printf("VIOLATION property=%s replay=%s\n", id, path)
+	os.Exit(1)
 }
 
 func dumpSC(m *model.Model, sc *model.SC) {
